@@ -87,6 +87,24 @@ func c13Exec(c *Ctx, cs c13Case) (outcome string) {
 		{"Inherits", func() { child, _ := spec.NewRef("other.json#/x"); _, _ = r.Inherits(child); _, _ = child.Inherits(r) }},
 		{"IsCanonical", func() { _ = r.IsCanonical(); _ = r.IsRoot(); _ = r.GetURL() }},
 		{"MarshalJSON", func() { _, _ = r.MarshalJSON(); _, _ = r.GobEncode() }},
+		// a schema that holds the reference is expanded and resolved (the value shares its URL with every copy)
+		{"expansion", func() {
+			loader := func(string) (json.RawMessage, error) {
+				return json.RawMessage(`{"a":{"title":"t"},"definitions":{"x":{"title":"x"}},"a b":{},"a/b":{}}`), nil
+			}
+			for _, abs := range []bool{false, true} {
+				s := spec.Schema{}
+				s.Ref = r
+				_ = spec.ExpandSchemaWithBasePath(&s, nil, &spec.ExpandOptions{RelativeBase: "file:///base/dir/root.json", PathLoader: loader, AbsoluteCircularRef: abs})
+			}
+			_, _ = spec.ResolveRefWithBase(nil, &r, &spec.ExpandOptions{RelativeBase: "file:///base/dir/root.json", PathLoader: loader})
+			saved := spec.PathLoader
+			spec.PathLoader = loader // never the network
+			p := spec.Parameter{}
+			p.Ref = r
+			_ = spec.ExpandParameter(&p, "file:///base/dir/root.json")
+			spec.PathLoader = saved
+		}},
 	} {
 		q.call()
 		if r.String() != text0 {
@@ -216,7 +234,7 @@ func c13Run(c *Ctx) {
 		c.Res.States++
 		o := c13Exec(c, cs)
 		c.Res.Evaluations++
-		c.Res.Transitions += 13 // print/parse, 5 query groups, 2 retained encodings, JSON, holder JSON, gob, gob slice, gob map
+		c.Res.Transitions += 14 // print/parse, 5 query groups, 2 retained encodings, JSON, holder JSON, gob, gob slice, gob map
 		if o != "rejected" {
 			c.Res.Nontrivial++
 		}
@@ -275,7 +293,7 @@ func trimLeftSlash(s string) string {
 func init() {
 	register(&CheckDef{
 		ID: "C13", Build: "light", Run: c13Run, RunCase: c13RunCase,
-		Rule:        "states = every reference string of the product scheme x authority x path x query x fragment (plus the zero Ref and opaque urn:/mailto: forms); transitions = print+parse, every read-only method (RemoteURI, IsValidURI on non-network forms, Inherits, IsCanonical/IsRoot/GetURL, MarshalJSON/GobEncode) followed by a comparison of text, classification and pointer, GobEncode/MarshalJSON results retained across later encodings of another reference, JSON encode/decode (bare and inside Refable), gob encode/decode (top level, slice element, map value); equality = canonical text plus the five classification flags plus IsRoot; non-trivial = the string is accepted as a reference",
+		Rule:        "states = every reference string of the product scheme x authority x path x query x fragment (plus the zero Ref and opaque urn:/mailto: forms); transitions = print+parse, every read-only method (RemoteURI, IsValidURI on non-network forms, Inherits, IsCanonical/IsRoot/GetURL, MarshalJSON/GobEncode) and every use of the value by the expander / resolver (schema and parameter holding it) followed by a comparison of text, classification and pointer, GobEncode/MarshalJSON results retained across later encodings of another reference, JSON encode/decode (bare and inside Refable), gob encode/decode (top level, slice element, map value); equality = canonical text plus the five classification flags plus IsRoot; non-trivial = the string is accepted as a reference",
 		Assumptions: []string{"authorities are hosts with at most one port (no userinfo), as C13 states", "an 'empty reference' is the zero Ref{}; NewRef(\"\") is the reference to the document root"},
 		MinOutcomes: 2,
 	})
